@@ -37,6 +37,10 @@ GEOS = {
                          "no_go_boundaries": []},
                     {"property_boundary": [[[0.0, 0.0], [20.0, 0.0], [20.0, 25.0], [0.0, 25.0]], [[22.0, 0.0], [40.0, 0.0], [40.0, 25.0], [22.0, 25.0]]],
                      "no_go_boundaries": [[[5.0, 5.0], [8.0, 5.0], [8.0, 9.0], [5.0, 9.0]], [[30.0, 5.0], [33.0, 5.0], [33.0, 9.0], [30.0, 9.0]]]}],
+    # outlines as the API also accepts them: one flat polygon instead of a list of polygons, whole numbers as ints
+    "constrained_flat": [{"property_boundary": [[0, 0], [40, 0], [40, 25], [0, 25]], "no_go_boundaries": [[8, 4], [14, 4], [14, 9], [8, 9]]},
+                         {"property_boundary": [[0.0, 0.0], [40.0, 0.0], [40.0, 25.0], [0.0, 25.0]], "no_go_boundaries": [[8.0, 4.0], [14.0, 4.0], [14.0, 9.0], [8.0, 9.0]]},
+                         {"property_boundary": [[[0, 0], [40, 0], [40, 25], [0, 25]]], "no_go_boundaries": [[30, 5], [33.5, 5], [33.5, 9], [30, 9]]}],
     "rowwise_ratio": [{"perimeter_spacing_ratio": 0.8}, {"perimeter_spacing_ratio": THIRD + 0.5, "max_spacing": 12 + THIRD, "min_spacing": 0.1 + 0.2 + 5, "spacing_step": 0.1,
                                                          "max_rotation": 33.3, "min_rotation": -77.7, "rotate_step": 0.7}, {"perimeter_spacing_ratio": 1.0, "min_rotation": -45.0, "max_rotation": 45.0}],
     "rowwise_none": [{"perimeter_spacing_ratio": None}, {"perimeter_spacing_ratio": None, "max_spacing": 12 + THIRD, "min_spacing": 0.1 + 0.2 + 5, "max_rotation": 90.0, "min_rotation": -90.0},
